@@ -2238,3 +2238,35 @@ def generic_ne(m, a, ci):
         y = m.load(a[1]) if isinstance(a[1], Ref) else a[1]
         return b_not(value_eq(m, x, y))
     return b_not(m.call_fn(fn, list(a)))
+
+
+@reg('str::is_ascii')
+def str_is_ascii(m, a, ci):
+    s = _s(m, a[0])
+    return b_and(*[i_ult(c, 0x80, 32) for c in s.chars])
+
+
+def _bytes_of(m, s):
+    """bytes of a string whose characters are all ASCII on this path (forces the decision)"""
+    out = []
+    for c in s.chars:
+        if not m.ctx.branch(i_ult(c, 0x80, 32)):
+            raise EncoderGap('byte view of a non-ASCII symbolic character')
+        out.append(c if not is_sym(c) else lite(z3.Extract(7, 0, c)))
+    return out
+
+
+@reg('str::bytes')
+def str_bytes(m, a, ci):
+    return ListIter(_bytes_of(m, _s(m, a[0])))
+
+
+@reg('str::as_bytes')
+def str_as_bytes(m, a, ci):
+    return tuple(_bytes_of(m, _s(m, a[0])))
+
+
+@reg('u8::is_ascii_whitespace')
+def u8_is_ascii_whitespace(m, a, ci):
+    c = m.load(a[0]) if isinstance(a[0], Ref) else a[0]
+    return b_or(*[i_eq(c, k, 8) for k in (0x20, 0x09, 0x0A, 0x0C, 0x0D)])
